@@ -139,7 +139,7 @@ fn cases(thorough: bool) -> Vec<Case> {
             let p = problem(pid, args);
             let jacs: Vec<&'static str> = if is_implicit(m) { if *pid == "decay" || *pid == "osc" || *pid == "lin3" { vec!["none", "callable", "constant"] } else if *pid == "switch" { vec!["callable"] } else { vec!["none", "callable"] } } else { vec!["none"] };
             for jac in jacs {
-                for opt in 0..11 {
+                for opt in 0..13 {
                     if jac != "none" && ![0, 1, 3].contains(&opt) {
                         continue;
                     }
@@ -182,6 +182,22 @@ fn cases(thorough: bool) -> Vec<Case> {
                             c.xend = 0.0;
                             c.dense = true;
                             sol_ts = vec![*span, 0.97 * span, 0.77 * span, 0.5 * span, 0.37 * span, 0.05 * span, 0.0];
+                        }
+                        11 => {
+                            // pure relative control (atol = 0 is a value, not "no value")
+                            if *pid != "decay" {
+                                continue;
+                            }
+                            c.rtol = Tol::S(1e-6);
+                            c.atol = Tol::S(0.0);
+                        }
+                        12 => {
+                            // per-component tolerances with one absolute tolerance of zero
+                            if *pid != "lin3" {
+                                continue;
+                            }
+                            c.rtol = Tol::V(vec![1e-5, 1e-6, 1e-5]);
+                            c.atol = Tol::V(vec![1e-8, 0.0, 1e-9]);
                         }
                         9 => {
                             // a terminal, direction-filtered event first, then event functions that
